@@ -855,6 +855,49 @@ def twins_part(mon, rec, rng, idx):
         mon.v("user computer derived from LinearFilterBankFrameComputer: %r" % (e,), check="twin_raise", cfg="vfband")
 
 
+def shared_bank_twins(mon, rec, rng, idx):
+    """explicitly assembled computers that share ONE bank object (a front end with and without the energy coefficient, at two frame
+    shifts) against computers built from configurations, each of which gets a bank of its own: a bank is a description, the computers
+    built around it do not change it for one another"""
+    from pydrobert.speech import alias as A, filters as F, compute as C
+
+    def same(a, b):
+        return a.shape == b.shape and a.dtype == b.dtype and np.array_equal(a, b, equal_nan=True)
+
+    kind = ["gabor", "tri", "gammatone", "fbank"][idx % 4]
+    bcfg = {"name": kind, "num_filts": int(rng.integers(2, 6)), "sampling_rate": 1000, "low_hz": 20.0, "high_hz": 480.0}
+    if kind != "fbank":
+        bcfg["scaling_function"] = "mel"
+    fam = ["si", "stft"][(idx // 4) % 2]
+    if fam == "si":
+        variants = [{"frame_shift_ms": 4.0, "include_energy": True}, {"frame_shift_ms": 4.0, "include_energy": False}, {"frame_shift_ms": 6.0, "include_energy": True},
+                    {"frame_shift_ms": 4.0, "include_energy": False, "use_power": True}]
+        cls = C.ShortIntegrationFrameComputer
+    else:
+        variants = [{"frame_length_ms": 16.0, "frame_shift_ms": 6.0, "include_energy": True}, {"frame_length_ms": 16.0, "frame_shift_ms": 6.0},
+                    {"frame_length_ms": 12.0, "frame_shift_ms": 6.0, "include_energy": True, "pad_to_nearest_power_of_two": True}, {"frame_length_ms": 16.0, "frame_shift_ms": 6.0, "use_power": True}]
+        cls = C.ShortTimeFourierTransformFrameComputer
+    order = [int(k) for k in rng.permutation(len(variants))]
+    sig = rng.standard_normal(int(rng.integers(60, 200)))
+    rec.ev()
+    rec.count("groups_of_computers_sharing_one_bank_object")
+    try:
+        bank = A.alias_factory_subclass_from_arg(F.LinearFilterBank, dict(bcfg))
+        explicit = {k: cls(bank, **variants[k]) for k in order}
+        for rnd in range(2):
+            for k in order:
+                built = A.alias_factory_subclass_from_arg(C.FrameComputer, json.loads(json.dumps(dict(variants[k], name=fam, bank=bcfg))))
+                want = built.compute_full(sig)
+                got = explicit[k].compute_full(sig)
+                if not same(got, want):
+                    mon.v("a %s computer assembled around a bank object that %d other computers share differs from the computer built from the same configuration (%r)"
+                          % (fam, len(order) - 1, variants[k]), check="twin_value", cfg=json.dumps(dict(variants[k], name=fam, bank=bcfg)))
+                    return
+        rec.nt(("shared_bank", fam, kind, tuple(order)))
+    except Exception as e:
+        mon.v("computers sharing one bank object (%s, %s): %r" % (fam, kind, e), check="twin_raise", cfg=json.dumps(bcfg))
+
+
 def run_case(case, rec, mon=None):
     import shutil
     import tempfile
@@ -916,6 +959,7 @@ def run_case(case, rec, mon=None):
         factory_part(mon, rec)
     elif kind == "twins":
         twins_part(mon, rec, rng_for(case["seed"], "C08", case["idx"], 7), case["idx"])
+        shared_bank_twins(mon, rec, rng_for(case["seed"], "C08", case["idx"], 9), case["idx"])
     elif kind == "scenario":
         d = tempfile.mkdtemp(prefix="c08_")
         try:
